@@ -40,6 +40,7 @@ func c06list(c *core.Ctx) {
 	r := c.R
 	var hist []string
 	fail := func(sig, msg string) {
+		sig = stripDigits(sig)
 		c.Violate("List."+sig, msg+fmt.Sprintf(" [after %d calls]", len(hist)), map[string]any{"history": append([]string{}, hist...)})
 	}
 	nl := r.Range(2, 3)
@@ -370,6 +371,7 @@ func c06ring(c *core.Ctx) {
 	r := c.R
 	var hist []string
 	fail := func(sig, msg string) {
+		sig = stripDigits(sig)
 		c.Violate("Ring."+sig, msg+fmt.Sprintf(" [after %d calls]", len(hist)), map[string]any{"history": append([]string{}, hist...)})
 	}
 	var hs []rh
@@ -576,4 +578,17 @@ func c06ring(c *core.Ctx) {
 		}
 		c.Sample(map[string]any{"kind": "ring", "calls": len(hist), "history_prefix": hp})
 	}
+}
+
+// stripDigits makes a call description a stable signature (handle numbers and
+// values removed, argument classes kept).
+func stripDigits(s string) string {
+	out := make([]byte, 0, len(s))
+	for i := 0; i < len(s); i++ {
+		if s[i] >= '0' && s[i] <= '9' || s[i] == '-' && i+1 < len(s) && s[i+1] >= '0' && s[i+1] <= '9' {
+			continue
+		}
+		out = append(out, s[i])
+	}
+	return string(out)
 }
